@@ -120,11 +120,24 @@ def engine_for(style: str):
 def _shapes():
     import sqlalchemy as sa
 
-    t = sa.table("t", sa.column("x", sa.Integer), sa.column("y", sa.Integer))
+    class Shifted(sa.TypeDecorator):
+        """An integer type whose bind processing is observable (+100000), so that a parameter delivered
+        without (or with another parameter's) processor is detected."""
+
+        impl = sa.Integer
+        cache_ok = True
+
+        def process_bind_param(self, value, dialect):
+            return None if value is None else value + 100000
+
+    t = sa.table("t", sa.column("x", sa.Integer), sa.column("y", sa.Integer), sa.column("z", Shifted))
     B = sa.bindparam
 
     def bp(nv):
         return B(nv[0], nv[1], type_=sa.Integer)
+
+    def bpz(nv):
+        return B(nv[0], nv[1], type_=Shifted)
 
     def s_select_list(nvs):
         return sa.select(*[bp(nv).label("c%d" % i) for i, nv in enumerate(nvs)])
@@ -187,7 +200,24 @@ def _shapes():
         parts = [sa.select(bp(nv).label("v")) for nv in nvs]
         return sa.union_all(*parts) if len(parts) > 1 else parts[0]
 
-    return [s_select_list, s_where, s_repeat, s_cte, s_subq_order_limit, s_having, s_in_expanding, s_literal_execute, s_insert, s_update, s_text, s_union]
+    def s_typed_where(nvs):
+        return sa.select(t.c.x).where(sa.and_(*[(t.c.z == bpz(nv)) if i % 2 == 0 else (t.c.x == bp(nv)) for i, nv in enumerate(nvs)]))
+
+    def s_typed_in(nvs):
+        s = sa.select(t.c.x).where(t.c.z.in_(B(nvs[0][0], [nvs[0][1], nvs[0][1] + 100, nvs[0][1] + 200], expanding=True, type_=Shifted)))
+        for nv in nvs[1:]:
+            s = s.where(t.c.y == bp(nv))
+        return s
+
+    def s_tuple_in(nvs):
+        v = nvs[0][1]
+        s = sa.select(t.c.x).where(sa.tuple_(t.c.x, t.c.z).in_(B(nvs[0][0], [(v, v + 1), (v + 10, v + 11), (v + 20, v + 21)], expanding=True)))
+        for nv in nvs[1:]:
+            s = s.where(t.c.y == bpz(nv))
+        return s
+
+    return [s_select_list, s_where, s_repeat, s_cte, s_subq_order_limit, s_having, s_in_expanding, s_literal_execute, s_insert, s_update, s_text, s_union,
+            s_typed_where, s_typed_in, s_tuple_in]
 
 
 _SH = None
@@ -400,7 +430,8 @@ def harnesses(tier: str) -> List[Harness]:
 
 
 def _shape_names():
-    return ["select_list", "where", "repeat", "cte", "subq_order_limit", "having", "in_expanding", "literal_execute", "insert", "update", "text", "union"]
+    return ["select_list", "where", "repeat", "cte", "subq_order_limit", "having", "in_expanding", "literal_execute", "insert", "update", "text", "union",
+            "typed_where", "typed_in", "tuple_in"]
 
 
 def classify(hname, args, rep):
